@@ -1,5 +1,6 @@
 import Tibc.Props.C09
 import Tibc.Expect.Packet
+import Tibc.Expect.Keys
 #print axioms Tibc.C09.send_commit_exact
 #print axioms Tibc.C09.seqInv_prim
 #print axioms Tibc.C09.seqInv_prims
